@@ -67,7 +67,6 @@ static int gv_isspace(int c)
 }
 
 /* ---- ghost state of one finish_cov call ------------------------------------------------------------------------ */
-struct gkc_rows_tab gv_rows_rem; /* opaque table of GKC_ROWS_REM(gv_tab_d, gv_tab_b, .), see gkc_spec.h                */
 int gv_tab_d, gv_tab_b;
 int gv_total;                 /* number of elements the announced band holds                                         */
 int gv_words;                 /* white-space separated words found in cov_mat_data so far                            */
@@ -333,8 +332,7 @@ void h_finish_cov(void)
 #ifdef GV_DIM_MAX
   __CPROVER_assume(P.idim <= GV_DIM_MAX);
 #endif
-  struct gkc_rows_tab anyrows;
-  gv_rows_rem = anyrows; gv_tab_d = P.idim; gv_tab_b = P.iband;   /* the opaque table of THIS matrix */
+  gv_tab_d = P.idim; gv_tab_b = P.iband;   /* gv_rows_rem is the opaque table of THIS matrix */
   char *text = malloc(n);                  /* the collected character data: any bytes, any length (0: empty object) */
   __CPROVER_assume(text != NULL);
   P.cov_mat_data_b = text;
